@@ -129,6 +129,9 @@ def mk_value(spec):
     if k == "mdir":
         from fim.slivers.network_service import MirrorDirection
         return MirrorDirection[spec[1]]
+    if k == "enum":           # ["enum", "InterfaceType", "ServicePort"]: a member of one of the API's type enums
+        import fim.user as _fu
+        return getattr(_fu, spec[1])[spec[2]]
     raise ValueError("bad value spec %r" % (spec,))
 
 
